@@ -121,7 +121,7 @@ def judge_table(B, table, best):
 
 
 @skippable
-def check_case(ctx, case, report=None, table_hook=None, do_genall=True, brute=True):
+def check_case(ctx, case, report=None, table_hook=None, do_genall=True, brute=True, history=True):
     """One input: thl (ALL, ANY), exh (ALL, ANY), generate_all, table hook."""
     report = report or (lambda mon, msg, **d: ctx.viol(f"C01.{mon}", case, msg, **d))
     B = bridge.Built(case)
@@ -179,7 +179,22 @@ def check_case(ctx, case, report=None, table_hook=None, do_genall=True, brute=Tr
         except Exception as exc:  # noqa: BLE001
             report("total", f"generate_all raised on a well-formed input: {type(exc).__name__}: {exc}")
     ctx.sig(SC.signature(B, one, model_min, nopt), SC.nontrivial(B, one))
+    if history and len(G.leaves()) >= 2 and sum(map(ord, repr(sorted(case["leafmap"].items())))) % 3 == 0:
+        # history: the cost table of the SAME input object is changed in place, then the solver runs again
+        c2 = dict(c, dup=c["dup"] + 2, hgt=(math.inf if (c["hgt"] != math.inf and c["dup"] % 2 == 0) else (3 if c["hgt"] == math.inf else c["hgt"] + 1)))
+        B.set_costs_inplace(c2)
+        min2 = min(dtl.dp_table(G, S, B.leafmap, c2)[G.root].values())
+        for pol in (ALL, ANY):
+            obs = SC.call("thl", B.inp, pol)
+            ctx.count("evaluations")
+            ctx.count("mon.after_inplace_cost_change")
+            for mon, msg, d in judge_outputs(B, obs, min2, 1):
+                report(mon, f"thl/{pol.name} after the cost table of the same input object was changed in place to {bridge_costs_text(c2)}: {msg}", algo="thl", policy=pol.name, **d)
     return B
+
+
+def bridge_costs_text(c):
+    return ", ".join(f"{k}={'inf' if v == math.inf else v}" for k, v in c.items())
 
 
 def canaries(ctx):
@@ -294,7 +309,7 @@ def known(ctx, finding):
     wit = finding["witness"]
     case = wit["case"]
     got = []
-    check_case(ctx, case, report=lambda mon, msg, **d: got.append((mon, msg, d)), brute=True, do_genall=False)
+    check_case(ctx, case, report=lambda mon, msg, **d: got.append((mon, msg, d)), brute=True, do_genall=False, history=False)
     exp = wit["expect"]
     matched = [g for g in got if g[0] in exp["monitors"] and g[2].get("algo") in exp["algos"]]
     other = [g for g in got if g not in matched]
